@@ -35,9 +35,9 @@ FILES = {
     "src/builder/sdd/builder.rs": ["C03", "C04"],
     "src/builder/sdd/compression.rs": ["C03", "C04", "C16"],
     "src/builder/sdd/semantic.rs": ["C11", "C16"],
-    "src/repr/sdd.rs": ["C10", "C03", "C11"],
-    "src/repr/sdd/sdd_or.rs": ["C10", "C11", "C03"],
-    "src/repr/sdd/binary_sdd.rs": ["C10", "C11", "C03"],
+    "src/repr/sdd.rs": ["C10", "C03", "C04", "C11"],
+    "src/repr/sdd/sdd_or.rs": ["C10", "C11", "C03", "C04"],
+    "src/repr/sdd/binary_sdd.rs": ["C10", "C11", "C03", "C04"],
     "src/repr/unit_prop.rs": ["C09"],
     "src/repr/cnf.rs": ["C15"],
     "src/repr/model.rs": ["C15", "C09"],
@@ -144,7 +144,10 @@ def setup_worker(i):
     return w
 
 
-def run_mutant(w, m, threads, log):
+ALL_PROPS = ["C01", "C02", "C03", "C04", "C09", "C10", "C11", "C15", "C16", "C18"]
+
+
+def run_mutant(w, m, threads, log, props=None, skip_suite=False):
     repo = f"{w}/repo"
     path = os.path.join(repo, m["file"])
     src = open(path).read().split("\n")
@@ -156,7 +159,7 @@ def run_mutant(w, m, threads, log):
     del res["new_full"]
     try:
         t0 = time.time()
-        rc, out = sh("cargo test --workspace --no-fail-fast --offline --features ffi", cwd=repo, env=env, timeout=1800)
+        rc, out = (0, "") if skip_suite else sh("cargo test --workspace --no-fail-fast --offline --features ffi", cwd=repo, env=env, timeout=1800)
         if rc == 124:
             res["status"] = "existing-tests-timeout"
             return res
@@ -165,7 +168,7 @@ def run_mutant(w, m, threads, log):
             return res
         res["suite_s"] = round(time.time() - t0)
         caught = {}
-        for p in FILES[m["file"]]:
+        for p in (props or FILES[m["file"]]):
             t1 = time.time()
             rc2, out2 = sh(f"bin/check {p} quick", cwd=f"{w}/verif", env=env, timeout=2400)
             line = [l for l in out2.splitlines() if l.startswith("violation in") or l.startswith("run ") or l.startswith("HARNESS")]
@@ -189,7 +192,10 @@ def main():
     ap.add_argument("--threads", type=int, default=5)
     ap.add_argument("--out", default=os.path.join(ROOT, "mutation", "results.jsonl"))
     ap.add_argument("--files", default="")
+    ap.add_argument("--survivors-all", action="store_true", help="second pass: run every claimed check not yet run on each SURVIVED mutant of --out; results go to <out>.second.jsonl")
     a = ap.parse_args()
+    if a.survivors_all:
+        return second_pass(a)
     rng = random.Random(a.seed)
     files = [f for f in FILES if not a.files or any(x in f for x in a.files.split(","))]
     todo = []
@@ -233,6 +239,53 @@ def main():
         r = json.loads(l)
         stats[r["status"]] = stats.get(r["status"], 0) + 1
     print(json.dumps(stats, indent=1))
+
+
+def second_pass(a):
+    out2 = a.out.replace(".jsonl", ".second.jsonl")
+    done = set()
+    if os.path.exists(out2):
+        for l in open(out2):
+            r = json.loads(l)
+            done.add((r["file"], r["line"], r["new"]))
+    todo = []
+    for l in open(a.out):
+        r = json.loads(l)
+        if r["status"] == "SURVIVED" and (r["file"], r["line"], r["new"]) not in done:
+            src = open(os.path.join("/repo", r["file"])).read().split("\n")
+            line = src[r["line"] - 1]
+            assert line.strip() == r["old"], (r, line)
+            r["new_full"] = line.replace(r["old"], r["new"])
+            r["rest"] = [p for p in ALL_PROPS if p not in r.get("checks", {})]
+            todo.append(r)
+    print(f"second pass over {len(todo)} survivors")
+    lock = threading.Lock()
+    it = iter(todo)
+
+    def worker(i):
+        w = setup_worker(i)
+        while True:
+            with lock:
+                m = next(it, None)
+            if m is None:
+                break
+            rest = m.pop("rest")
+            first = m.pop("checks", {})
+            m.pop("status", None)
+            r = run_mutant(w, m, a.threads, None, props=rest, skip_suite=True)
+            r["first_pass_checks"] = first
+            with lock:
+                with open(out2, "a") as f:
+                    f.write(json.dumps(r) + "\n")
+                print(f"[w{i}] {r['file']}:{r['line']} {r['old'][:50]!r} -> {r['new'][:50]!r}: {r['status']}", flush=True)
+        sh(f"git -C /repo worktree remove --force {w}/repo")
+        shutil.rmtree(w, ignore_errors=True)
+
+    ts = [threading.Thread(target=worker, args=(i + 10,)) for i in range(a.workers)]
+    for t in ts:
+        t.start()
+    for t in ts:
+        t.join()
 
 
 if __name__ == "__main__":
